@@ -412,6 +412,36 @@ TABLE_ENTRIES = ["scan:manifest_entry", "scan:manifest_entry_nochecksum", "scan:
 PLAIN_TABLE_ENTRIES = ["plain:garbage_collect", "plain:scan", "plain:append_records+gc", "plain:open+row_count"]
 
 
+def harvest_magnitudes(lo: int = 1024) -> List[int]:
+    """Integer magnitudes >= lo that the read / write modules compare sizes or counts with: every constant-foldable integer
+    expression of their source (32 * 1024 * 1024, 1 << 20, 100000 ...).  ast walk; nothing hard-coded."""
+    import ast
+    import datashard
+    ops = {ast.Mult: lambda a, b: a * b, ast.Add: lambda a, b: a + b, ast.Sub: lambda a, b: a - b,
+           ast.LShift: lambda a, b: a << b if 0 <= b < 64 else None, ast.Pow: lambda a, b: a ** b if 0 <= b < 64 else None}
+
+    def fold(n: ast.AST) -> Optional[int]:
+        if isinstance(n, ast.Constant) and type(n.value) is int:
+            return n.value
+        if isinstance(n, ast.BinOp) and type(n.op) in ops:
+            a, b = fold(n.left), fold(n.right)
+            if a is not None and b is not None:
+                try:
+                    return ops[type(n.op)](a, b)
+                except Exception:     # noqa: BLE001
+                    return None
+        return None
+    out = set()
+    base = os.path.dirname(datashard.__file__)
+    for m in ("data_operations.py", "transaction.py", "file_manager.py", "integrity.py", "storage_backend.py"):
+        with open(os.path.join(base, m), encoding="utf-8") as f:
+            for n in ast.walk(ast.parse(f.read())):
+                v = fold(n)
+                if v is not None and lo <= v < (1 << 62):
+                    out.add(v)
+    return sorted(out)
+
+
 def table_call(wsp: pathaudit.Workspace, base: str, entry: str, p: str) -> Callable[[], Any]:
     from datashard import load_table
     from datashard.data_structures import DataFile, FileFormat
@@ -487,11 +517,15 @@ def oracle_table(ctx, strings: Sequence[str]) -> None:
                 report(ctx, problems)
             if arrangement != "standard":
                 continue
-            for entry in TABLE_ENTRIES:
+            mags = harvest_magnitudes()
+            ctx.stats["entry_magnitudes_harvested"] = mags
+            # (the magnitude entries: every harvested magnitude c as c and c + 1, on the strings that leave the root or name a link)
+            mag_entries = [f"scan:manifest_entry@{v}" for c in mags for v in ((c, c + 1) if ctx.tier != "quick" else (c + 1,))]
+            for entry in TABLE_ENTRIES + mag_entries:
                 # the collector never resolves a marker payload (it only protects that name) and treats listed /
                 # rollback paths best-effort: for those only the touch and sentinel rules apply
                 absolute_capable = entry.startswith(("scan", "row_count", "append"))
-                for p in strings:
+                for p in (strings if "@" not in entry else [x for x in strings if ".." in x or "ln" in x or "link" in x or x.startswith("/")][:: (4 if ctx.tier == "quick" else 1)]):
                     if brk.tripped(entry):
                         continue
                     outcome, problems = pathaudit.run_case(wsp, judge, audit, entry, table_call(wsp, base, entry, p), p, base_kind, absolute_capable,
